@@ -1660,7 +1660,7 @@ def remove_stns_sinex(sinex, sites):
                     val = '{:21.14e}'.format(float(sub_vcv[str(i)].pop(0)))
                     line += ' ' + str(val)
                 out.write(line + '\n')
-        out.write(block_end)
+        out.write(block_end + '\n')
 
         # Write out the trailer line
         out.write('%ENDSNX\n')
